@@ -29,11 +29,17 @@ func Main() {
 	r.Assume("end of stream: a truncation exactly at a frame boundary is indistinguishable from the peer closing the connection and is reported as io.EOF after exactly the intact frames; every other manipulation must end in an error other than io.EOF")
 	r.Assume("a message accepted by Send/TrySend must be delivered unless the connection stops first: FlushStop flushes everything accepted before it was called; after a plain Stop or an error only a gap-free beginning of each channel's sequence is required")
 	r.Assume("the code's own wall-clock mechanisms (10 s send timeout, ping/pong, handshake and dial timeouts) are kept out of the oracles: pings are disabled, a Send that returns false is simply a refused message")
-	only := os.Getenv("C20_ONLY") // DEV-ONLY: group name prefix filter
+	only := os.Getenv("C20_ONLY") // DEV-ONLY: comma-separated group name prefixes
 	timing := os.Getenv("C20_TIMING") != "" && !r.IsChild()
 	grp := func(name string, n int, o core.Opts, fn func(*core.Case)) {
-		if only != "" && !strings.HasPrefix(name, only) {
-			return
+		if only != "" {
+			hit := false
+			for _, pre := range strings.Split(only, ",") {
+				hit = hit || strings.HasPrefix(name, pre)
+			}
+			if !hit {
+				return
+			}
 		}
 		t0 := time.Now()
 		r.Cases(name, n, o, fn)
